@@ -179,8 +179,7 @@ Lemma v_parts : length s = n /\
   crossing_ok S0 s (f0_crossing fb) = true /\
   forallb (constraint_ok S0 s) (s_constraints S0) = true.
 Proof.
-  unfold valid_b in Hv. rewrite (f0_sem_crossings fb HF) in Hv.
-  cbn [forallb] in Hv.
+  unfold valid_b in Hv. rewrite (f0_crossings_split fb HF) in Hv.
   apply andb_prop in Hv. destruct Hv as [Hv0 Hk]. apply andb_prop in Hv0. destruct Hv0 as [Hv1 Hc].
   apply andb_prop in Hc. destruct Hc as [Hc _].
   apply andb_prop in Hv1. destruct Hv1 as [Hl Hf].
@@ -201,7 +200,8 @@ Lemma f0_applies f fd t : In f (fl_act fb) -> nth_error (s_factors S0) f = Some 
 Proof.
   intros Hact E. destruct (f0_sem_factor fb HF f fd Hact E) as (_ & _ & Hsu & Hder).
   destruct (is_derived fb f) eqn:Ed.
-  - destruct (f0_sem_crossed_derived fb HF f fd Hact Ed E) as (_ & d & w & _ & _ & Hd & _).
+  - destruct (f0_sem_crossed_derived fb HF f fd Hact Ed E) as (Hfc & d & w & _ & _ & Hd & _).
+    rewrite (f0_sustain_main fb HF f Hfc) in Hsu.
     apply (applies_within fd _ Hd eq_refl eq_refl Hsu t).
   - unfold applies. rewrite (Hder eq_refl). reflexivity.
 Qed.
@@ -278,7 +278,8 @@ Proof.
   assert (Hlt : f < length (s_factors S0)) by (rewrite (f0_sem_factors_length fb HF); exact Hf).
   destruct (nth_error (s_factors S0) f) as [fd|] eqn:E; [|apply nth_error_None in E; lia].
   specialize (Hfac f fd E). destruct (f0_sem_factor fb HF f fd Hact E) as (_ & Hnl & Hsu & _).
-  destruct (f0_sem_crossed_derived fb HF f fd Hact Hd E) as (_ & d & w & Hfa & Hw & Hder & Hdeps).
+  destruct (f0_sem_crossed_derived fb HF f fd Hact Hd E) as (Hfc & d & w & Hfa & Hw & Hder & Hdeps).
+  rewrite (f0_sustain_main fb HF f Hfc) in Hsu.
   exists w. split; [unfold window_of; rewrite Hfa; exact Hw|]. split; [exact Hdeps|].
   unfold factor_ok in Hfac. apply andb_prop in Hfac. destruct Hfac as [_ Hcells]. rewrite forallb_forall in Hcells.
   specialize (Hcells t ltac:(apply in_seq; rewrite (f0_sem_trials fb HF); lia)).
